@@ -1,0 +1,35 @@
+package generator
+
+import (
+	"bytes"
+	"encoding/json"
+	"strings"
+)
+
+// regoString renders text coming from the profile (names, messages, values) as a Rego string literal.
+// Rego string literals follow the JSON syntax: quotes, backslashes and control characters must be escaped,
+// otherwise the text changes the meaning of the generated module or breaks its compilation.
+func regoString(s string) string {
+	var b bytes.Buffer
+	encoder := json.NewEncoder(&b)
+	encoder.SetEscapeHTML(false)
+	if err := encoder.Encode(s); err != nil {
+		panic(err)
+	}
+	return strings.TrimSuffix(b.String(), "\n")
+}
+
+// regoStringContent is regoString without the surrounding quotes, to be used inside a string literal template
+func regoStringContent(s string) string {
+	quoted := regoString(s)
+	return quoted[1 : len(quoted)-1]
+}
+
+// regoStrings renders a list of values as a comma separated list of Rego string literals
+func regoStrings(values []string) string {
+	acc := make([]string, len(values))
+	for i, v := range values {
+		acc[i] = regoString(v)
+	}
+	return strings.Join(acc, ",")
+}
